@@ -51,7 +51,10 @@ pub fn run_obs(op: &str, step: &Value, regs: &Regs, ctx: &mut Ctx, keys: &crate:
                 let leaf_bytes = e.as_leaf().map(|c| c.to_cbor_data());
                 let is_bstr = leaf_bytes.as_ref().map(|b| b[0] >> 5 == 2).unwrap_or(false);
                 same("try_byte_string", e.try_byte_string().is_ok(), is_bstr)?;
-                let sub = e.subject().as_leaf().map(|c| c.to_cbor_data());
+                // extract_subject descends through nodes to the innermost subject
+                let mut inner = e.clone();
+                while inner.is_node() { inner = inner.subject(); }
+                let sub = inner.as_leaf().map(|c| c.to_cbor_data());
                 same("is_null", e.is_null(), sub.as_deref() == Some(&[0xf6]))?;
                 same("is_true", e.is_true(), sub.as_deref() == Some(&[0xf5]))?;
                 same("is_false", e.is_false(), sub.as_deref() == Some(&[0xf4]))?;
@@ -90,22 +93,22 @@ pub fn run_obs(op: &str, step: &Value, regs: &Regs, ctx: &mut Ctx, keys: &crate:
             let ur = e.ur_string();
             let tree = e.tree_format(false);
             if f1 != e.format() || flat != e.format_flat() || tree != e.tree_format(false) {
-                return Err("formatting the same envelope twice gives different text".into());
+                return Err("#variant:format# formatting the same envelope twice gives different text".into());
             }
             if flat.contains('\n') {
-                return Err("format_flat contains a line break".into());
+                return Err("#variant:format# format_flat contains a line break".into());
             }
             // hex() is an annotated dump: its hex digits, in order, are the encoding
             let digits: String = hexs.lines().map(|l| l.split('#').next().unwrap_or("")).collect::<String>().chars().filter(|c| c.is_ascii_hexdigit()).collect();
             if digits != hx(&e.tagged_cbor().to_cbor_data()) {
-                return Err("the hex digits of hex() are not the encoding".into());
+                return Err("#variant:format# the hex digits of hex() are not the encoding".into());
             }
             let back = Envelope::from_ur_string(&ur).map_err(|x| format!("UR does not parse back: {}", x))?;
             if !back.is_identical_to(e) {
-                return Err("UR round trip is not identical".into());
+                return Err("#variant:format# UR round trip is not identical".into());
             }
             if diag.is_empty() || diag_a.is_empty() {
-                return Err("empty diagnostic notation".into());
+                return Err("#variant:format# empty diagnostic notation".into());
             }
             // markers of obscured elements in the tree rendering (one line per element)
             let count = |w: &str| tree.lines().filter(|l| l.trim_end().ends_with(w)).count();
@@ -185,12 +188,12 @@ pub fn run_obs(op: &str, step: &Value, regs: &Regs, ctx: &mut Ctx, keys: &crate:
                 // typed through TryFrom<Envelope> (String): all values or an error, never another value
                 if let Ok(v) = e.try_objects_for_predicate::<String>(mk()) {
                     if v.len() != objs.len() {
-                        return Err("try_objects_for_predicate returned a different number of values".into());
+                        return Err("#variant:typed_lookup# try_objects_for_predicate returned a different number of values".into());
                     }
                     for (x, y) in v.iter().zip(objs.iter()) {
                         let c: dcbor::CBOR = x.clone().into();
                         if y.as_leaf().map(|l| l.to_cbor_data()) != Some(c.to_cbor_data()) {
-                            return Err("try_objects_for_predicate::<String> returned another value".into());
+                            return Err("#variant:typed_lookup# try_objects_for_predicate::<String> returned another value".into());
                         }
                     }
                 }
@@ -198,19 +201,19 @@ pub fn run_obs(op: &str, step: &Value, regs: &Regs, ctx: &mut Ctx, keys: &crate:
                 if let Ok(x) = e.try_object_for_predicate::<String>(mk()) {
                     let c: dcbor::CBOR = x.into();
                     if one.as_ref().ok().and_then(|o| o.as_leaf()).map(|l| l.to_cbor_data()) != Some(c.to_cbor_data()) {
-                        return Err("try_object_for_predicate::<String> returned another value".into());
+                        return Err("#variant:typed_lookup# try_object_for_predicate::<String> returned another value".into());
                     }
                 }
                 match (e.optional_object_for_predicate(mk()), e.try_optional_object_for_predicate::<String>(mk())) {
-                    (Ok(None), Ok(Some(_))) | (Ok(None), Err(_)) => return Err("try_optional_object_for_predicate disagrees on an absent predicate".into()),
+                    (Ok(None), Ok(Some(_))) | (Ok(None), Err(_)) => return Err("#variant:typed_lookup# try_optional_object_for_predicate disagrees on an absent predicate".into()),
                     (Ok(Some(o)), Ok(Some(x))) => {
                         let c: dcbor::CBOR = x.into();
                         if o.as_leaf().map(|l| l.to_cbor_data()) != Some(c.to_cbor_data()) {
-                            return Err("try_optional_object_for_predicate::<String> returned another value".into());
+                            return Err("#variant:typed_lookup# try_optional_object_for_predicate::<String> returned another value".into());
                         }
                     }
-                    (Ok(Some(_)), Ok(None)) => return Err("try_optional_object_for_predicate lost a present object".into()),
-                    (Err(_), Ok(_)) => return Err("try_optional_object_for_predicate ignored an ambiguous predicate".into()),
+                    (Ok(Some(_)), Ok(None)) => return Err("#variant:typed_lookup# try_optional_object_for_predicate lost a present object".into()),
+                    (Err(_), Ok(_)) => return Err("#variant:typed_lookup# try_optional_object_for_predicate ignored an ambiguous predicate".into()),
                     _ => {}
                 }
                 // extraction of the object(s): a value whose re-encoding is the stored leaf, or an error
@@ -219,13 +222,13 @@ pub fn run_obs(op: &str, step: &Value, regs: &Regs, ctx: &mut Ctx, keys: &crate:
                         if let Ok(sv) = e.extract_object_for_predicate::<String>(mk()) {
                             let cc: dcbor::CBOR = sv.into();
                             if cc.to_cbor_data() != c.to_cbor_data() {
-                                return Err("extract_object_for_predicate::<String> returned another value".into());
+                                return Err("#variant:typed_lookup# extract_object_for_predicate::<String> returned another value".into());
                             }
                         }
                         let with_default = e.extract_object_for_predicate_with_default::<String>(mk(), "~default~".to_string());
                         if let Ok(sv) = with_default {
                             if sv == "~default~" {
-                                return Err("extract_object_for_predicate_with_default returned the default for a present predicate".into());
+                                return Err("#variant:typed_lookup# extract_object_for_predicate_with_default returned the default for a present predicate".into());
                             }
                         }
                     }
@@ -233,13 +236,13 @@ pub fn run_obs(op: &str, step: &Value, regs: &Regs, ctx: &mut Ctx, keys: &crate:
                 if e.assertions_with_predicate(mk()).is_empty() {
                     match e.extract_object_for_predicate_with_default::<String>(mk(), "~default~".to_string()) {
                         Ok(sv) if sv == "~default~" => {}
-                        other => return Err(format!("extract_object_for_predicate_with_default on an absent predicate: {:?}", other.map_err(|x| x.to_string()))),
+                        other => return Err(format!("#variant:typed_lookup# extract_object_for_predicate_with_default on an absent predicate: {:?}", other.map_err(|x| x.to_string()))),
                     }
                 }
                 let many = e.extract_objects_for_predicate::<String>(mk());
                 if let Ok(v) = many {
                     if v.len() != objs.len() {
-                        return Err("extract_objects_for_predicate returned a different number of values".into());
+                        return Err("#variant:typed_lookup# extract_objects_for_predicate returned a different number of values".into());
                     }
                 }
             }
@@ -402,13 +405,13 @@ pub fn run_obs(op: &str, step: &Value, regs: &Regs, ctx: &mut Ctx, keys: &crate:
             let has = if let Some(kv) = t.as_known_value() {
                 let h = e.has_type(kv);
                 if h != e.check_type(kv).is_ok() {
-                    return Err("has_type and check_type disagree".into());
+                    return Err("#variant:types# has_type and check_type disagree".into());
                 }
                 h
             } else {
                 let h = e.has_type_envelope(t.clone());
                 if h != e.check_type_envelope(t.clone()).is_ok() {
-                    return Err("has_type_envelope and check_type_envelope disagree".into());
+                    return Err("#variant:types# has_type_envelope and check_type_envelope disagree".into());
                 }
                 h
             };
@@ -427,7 +430,7 @@ pub fn run_obs(op: &str, step: &Value, regs: &Regs, ctx: &mut Ctx, keys: &crate:
                         let d = x.digest().into_owned();
                         match c.get(&d) {
                             Some(y) if y.is_identical_to(x) => {}
-                            _ => return Err("container does not hold an attachment of the envelope under its digest".into()),
+                            _ => return Err("#variant:attachments_container# container does not hold an attachment of the envelope under its digest".into()),
                         }
                         ds.push(dhex(x));
                     }
@@ -435,15 +438,15 @@ pub fn run_obs(op: &str, step: &Value, regs: &Regs, ctx: &mut Ctx, keys: &crate:
                     let again = c.add_to_envelope(e.subject());
                     let back: std::collections::HashSet<String> = again.attachments().map_err(|x| x.to_string())?.iter().map(dhex).collect();
                     if back != ds.iter().cloned().collect() {
-                        return Err("add_to_envelope does not reproduce the attachments".into());
+                        return Err("#variant:attachments_container# add_to_envelope does not reproduce the attachments".into());
                     }
                     for x in &list {
                         if c.remove(&x.digest().into_owned()).is_none() {
-                            return Err("remove of a held attachment returned None".into());
+                            return Err("#variant:attachments_container# remove of a held attachment returned None".into());
                         }
                     }
                     if !c.is_empty() {
-                        return Err("container holds more than the envelope's attachments".into());
+                        return Err("#variant:attachments_container# container holds more than the envelope's attachments".into());
                     }
                     ds.sort();
                     json!(["ok", ["set", ds]])
@@ -523,11 +526,11 @@ pub fn run_obs(op: &str, step: &Value, regs: &Regs, ctx: &mut Ctx, keys: &crate:
                     let r2 = Expression::try_from((e2, expected.as_ref()));
                     match (r1, r2) {
                         (Ok(x), Ok(y)) => {
-                            if x != y { return Err("expression parsed directly and through bytes differ".into()); }
+                            if x != y { return Err("#variant:parse_paths# expression parsed directly and through bytes differ".into()); }
                             json!(["ok", ["expression", fn_json(x.function()), params_json(x.expression_envelope())]])
                         }
                         (Err(er), Err(_)) => json!(["err", err_kind(&er)]),
-                        _ => return Err("parse outcome differs between direct and through bytes".into()),
+                        _ => return Err("#variant:parse_paths# parse outcome differs between direct and through bytes".into()),
                     }
                 }
                 "request" => {
@@ -535,11 +538,11 @@ pub fn run_obs(op: &str, step: &Value, regs: &Regs, ctx: &mut Ctx, keys: &crate:
                     let r2 = Request::try_from((e2, expected.as_ref()));
                     match (r1, r2) {
                         (Ok(x), Ok(y)) => {
-                            if x != y { return Err("request parsed directly and through bytes differ".into()); }
+                            if x != y { return Err("#variant:parse_paths# request parsed directly and through bytes differ".into()); }
                             json!(["ok", ["request", fn_json(x.function()), params_json(x.expression_envelope()), x.id().data()[0], x.note(), date_json(x.date())]])
                         }
                         (Err(er), Err(_)) => json!(["err", err_kind(&er)]),
-                        _ => return Err("parse outcome differs between direct and through bytes".into()),
+                        _ => return Err("#variant:parse_paths# parse outcome differs between direct and through bytes".into()),
                     }
                 }
                 "response" => {
@@ -547,7 +550,7 @@ pub fn run_obs(op: &str, step: &Value, regs: &Regs, ctx: &mut Ctx, keys: &crate:
                     let r2 = Response::try_from(e2);
                     match (r1, r2) {
                         (Ok(x), Ok(y)) => {
-                            if x != y { return Err("response parsed directly and through bytes differ".into()); }
+                            if x != y { return Err("#variant:parse_paths# response parsed directly and through bytes differ".into()); }
                             let (variant, id, payload) = if x.is_ok() {
                                 ("success", x.id().map(|i| i.data()[0]).unwrap_or(0), dhex(x.result().map_err(|e| e.to_string())?))
                             } else {
@@ -556,7 +559,7 @@ pub fn run_obs(op: &str, step: &Value, regs: &Regs, ctx: &mut Ctx, keys: &crate:
                             json!(["ok", ["response", variant, id, payload]])
                         }
                         (Err(er), Err(_)) => json!(["err", err_kind(&er)]),
-                        _ => return Err("parse outcome differs between direct and through bytes".into()),
+                        _ => return Err("#variant:parse_paths# parse outcome differs between direct and through bytes".into()),
                     }
                 }
                 "event" => {
@@ -564,11 +567,11 @@ pub fn run_obs(op: &str, step: &Value, regs: &Regs, ctx: &mut Ctx, keys: &crate:
                     let r2 = Event::<Envelope>::try_from(e2);
                     match (r1, r2) {
                         (Ok(x), Ok(y)) => {
-                            if x != y { return Err("event parsed directly and through bytes differ".into()); }
+                            if x != y { return Err("#variant:parse_paths# event parsed directly and through bytes differ".into()); }
                             json!(["ok", ["event", dhex(x.content()), x.id().data()[0], x.note(), date_json(x.date())]])
                         }
                         (Err(er), Err(_)) => json!(["err", err_kind(&er)]),
-                        _ => return Err("parse outcome differs between direct and through bytes".into()),
+                        _ => return Err("#variant:parse_paths# parse outcome differs between direct and through bytes".into()),
                     }
                 }
                 _ => return Err("parse what".into()),
